@@ -300,7 +300,7 @@ pub fn build_guest_tuned(e: &mut Ent, tune: Option<&Tune>) -> Guest {
 pub struct Machine {
     pub cpu: Cpu,
     pub rx: Receiver<String>,
-    _tx: Sender<String>,
+    pub tx: Sender<String>,
 }
 
 pub fn machine(file: &[u8], args: &str, tag: &str) -> Result<Machine, String> {
@@ -321,7 +321,7 @@ pub fn machine(file: &[u8], args: &str, tag: &str) -> Result<Machine, String> {
     };
     let _ = std::fs::remove_file(&path);
     r.map_err(|p| format!("loader panicked: {}", p))?;
-    Ok(Machine { cpu, rx: out_rx, _tx: in_tx })
+    Ok(Machine { cpu, rx: out_rx, tx: in_tx })
 }
 
 #[derive(Clone, Debug, PartialEq)]
@@ -350,6 +350,56 @@ pub fn run_a(g: &Guest, tag: &str) -> Result<(Machine, Final), String> {
     let msgs: Vec<String> = m.rx.try_iter().collect();
     let f = Final { result, er: m.cpu.er, ccr: hooks::ccr(&m.cpu), pc: hooks::pc(&m.cpu), total: m.cpu.bus.cpu_state_sum as u64, msgs };
     Ok((m, f))
+}
+
+/// (A') the real run loop while a second thread keeps suspending and resuming it over the control channel
+/// (`cmd:pause` ... `cmd:start`, with lines the protocol ignores in between) at moments the OS picks: suspension
+/// must be invisible to the guest - same final state, same state count, same message sequence as the undisturbed run.
+pub fn run_a_paused(g: &Guest, tag: &str, seed: u64) -> Result<(Machine, Final, usize), String> {
+    let mut m = machine(&g.file, &g.args, tag)?;
+    hooks::set_state_sum(&mut m.cpu, g.start_total as usize);
+    let done = std::sync::atomic::AtomicBool::new(false);
+    let tx = m.tx.clone();
+    let (r, windows) = std::thread::scope(|sc| {
+        let feeder = sc.spawn(|| {
+            let mut x = seed | 1;
+            let mut next = move || {
+                x = x.wrapping_mul(6364136223846793005).wrapping_add(1442695040888963407);
+                (x >> 33) as u32
+            };
+            let mut windows = 0usize;
+            while !done.load(std::sync::atomic::Ordering::Relaxed) {
+                std::thread::sleep(std::time::Duration::from_micros(50 + (next() % 1500) as u64));
+                if tx.send("cmd:pause".into()).is_err() {
+                    break;
+                }
+                for _ in 0..next() % 3 {
+                    let _ = tx.send(["cmd:pause", "bogus", "cmd:nothing", "cmd:start:now", ""][(next() % 5) as usize].into());
+                }
+                std::thread::sleep(std::time::Duration::from_micros((next() % 800) as u64));
+                // resume - always: a suspended loop never reaches the end of the program
+                if tx.send("cmd:start".into()).is_err() {
+                    break;
+                }
+                windows += 1;
+            }
+            windows
+        });
+        let r = {
+            let cpu = &mut m.cpu;
+            guarded(move || cpu.run())
+        };
+        done.store(true, std::sync::atomic::Ordering::Relaxed);
+        (r, feeder.join().unwrap_or(0))
+    });
+    let result = match r {
+        Ok(Ok(())) => Ok(()),
+        Ok(Err(e)) => Err(format!("{:#}", e).lines().next().unwrap_or("").to_string()),
+        Err(p) => return Err(format!("run() panicked: {}", p)),
+    };
+    let msgs: Vec<String> = m.rx.try_iter().collect();
+    let f = Final { result, er: m.cpu.er, ccr: hooks::ccr(&m.cpu), pc: hooks::pc(&m.cpu), total: m.cpu.bus.cpu_state_sum as u64, msgs };
+    Ok((m, f, windows))
 }
 
 pub struct BInfo {
@@ -737,6 +787,26 @@ pub fn run(ctx: &Ctx) -> i32 {
         let g = Guest { file, args: args.to_string(), fails: case.get("fails").and_then(|f| f.as_bool()).unwrap_or(false), features: vec![], start_total: case.get("start_total").and_then(|f| f.as_u64()).unwrap_or(0) };
         let quiet = Redirect::start(false);
         let mut r = judge(&g, "replay").map(|_| ());
+        if r.is_ok() {
+            // the suspend / resume re-run (three times: the windows fall where the OS puts them)
+            if let Ok((m0, f0)) = run_a(&g, "replay-plain") {
+                let d0 = digest(&f0, &m0.cpu);
+                for k in 0..3u64 {
+                    match run_a_paused(&g, "replay-paused", mix(ctx.seed, 0x1305_0000 + k)) {
+                        Ok((m, f, windows)) => {
+                            if digest(&f, &m.cpu) != d0 {
+                                r = Err(format!("final registers / memory / state count / message sequence differ between an undisturbed run and a run suspended and resumed {} times over the control channel", windows));
+                                break;
+                            }
+                        }
+                        Err(e) => {
+                            r = Err(e);
+                            break;
+                        }
+                    }
+                }
+            }
+        }
         if r.is_ok() && g.start_total == 0 {
             if let (Some(bin), Ok((_, f))) = (crate::engine::realbin::real_binary(), run_a(&g, "replay-real")) {
                 match judge_real(&bin, &g, &f, "replay") {
@@ -863,6 +933,25 @@ pub fn run(ctx: &Ctx) -> i32 {
                 if i % 8 != shard {
                     continue;
                 }
+                // every other one of them with suspend / resume windows on top
+                if i % 2 == 1 {
+                    match run_a_paused(g, &format!("c13-pause-{}-{}", shard, i), mix(ctx.seed, 0x1305_0000 + i as u64)) {
+                        Ok((m, f, windows)) => {
+                            st.evaluations += 1;
+                            st.class("re-run with cmd:pause / cmd:start windows from a second thread");
+                            st.class_n("suspend/resume windows delivered", windows as u64);
+                            if digest(&f, &m.cpu) != *d {
+                                st.fail(Failure { signature: "run loop | result depends on suspend/resume".into(), detail: format!("final registers / memory / state count / message sequence differ between an undisturbed run and a run suspended and resumed {} times over the control channel", windows), case: guest_json(g) });
+                                break;
+                            }
+                        }
+                        Err(e) => {
+                            st.fail(Failure { signature: "run loop | re-run failed".into(), detail: e, case: guest_json(g) });
+                            break;
+                        }
+                    }
+                    continue;
+                }
                 match run_a(g, &format!("c13-load-{}-{}", shard, i)) {
                     Ok((m, f)) => {
                         st.evaluations += 1;
@@ -889,6 +978,6 @@ pub fn run(ctx: &Ctx) -> i32 {
     stats.merge(real_phase(ctx, &real));
     drop(quiet);
     let _ = std::fs::remove_dir(std::env::temp_dir().join(format!("h8verif-{}", std::process::id())));
-    let rule = "cases = proptest-generated terminating guest programs (straight-line arithmetic, memory accesses, calls, counted delay loops sized to land on both sides of 1-3 sync thresholds, port direction/data writes, console output through the MES write call, timer start with an optional interrupt handler installed through set_handler, optional slow-bus prologue, optionally a failing instruction at the end) wrapped into an ELF whose ___exit is the program's end, with generated argument strings. Drivers: (A) elf::load + the real Cpu::run() in-process (real pacing left in) with all messages captured; (B) the statement's accounting re-implemented over single steps (poll, step, total += 3 x charge, sync when floor(total/2,000,000) grows, peripherals fed the same amount) in lockstep with (C) the reference model. Oracle: run() succeeds iff the program has no failing instruction and then PC == exit address; final registers, CCR, all five memory regions (incl. timer and port registers = what peripherals saw), cumulative state count and the exact message sequence (ioport/stdout/sync, order and stamps) of A equal B; a third of the programs is run again, and again while all cores are kept busy: byte-identical results. Programs also print their own argv words (MES write of the pointer found at run time), write values into unrelated on-chip I/O registers, end with a burst of 3-255 port messages (1 in 4), and 1 in 4 starts at the last sync multiple below 2^32 (state count, stamps and sync totals cross 2^32). A third of the programs get a tail solved so that the total lands exactly on / just before / just after a threshold. Phase 3: 32 (quick) / 600 (thorough) programs through the repository's real release binary (-m): exit status 0 iff no failing instruction, stdout byte stream == console text + `msg: ` lines of the in-process run (covers src/main.rs incl. the argument string). Non-trivial = total crosses >= 1 sync threshold, or emits an ioport/stdout message, or contains a failing instruction; distinct by ELF contents.";
+    let rule = "cases = proptest-generated terminating guest programs (straight-line arithmetic, memory accesses, calls, counted delay loops sized to land on both sides of 1-3 sync thresholds, port direction/data writes, console output through the MES write call, timer start with an optional interrupt handler installed through set_handler, optional slow-bus prologue, optionally a failing instruction at the end) wrapped into an ELF whose ___exit is the program's end, with generated argument strings. Drivers: (A) elf::load + the real Cpu::run() in-process (real pacing left in) with all messages captured; (B) the statement's accounting re-implemented over single steps (poll, step, total += 3 x charge, sync when floor(total/2,000,000) grows, peripherals fed the same amount) in lockstep with (C) the reference model. Oracle: run() succeeds iff the program has no failing instruction and then PC == exit address; final registers, CCR, all five memory regions (incl. timer and port registers = what peripherals saw), cumulative state count and the exact message sequence (ioport/stdout/sync, order and stamps) of A equal B; a third of the programs is run again, and again while all cores are kept busy - half of those while a second thread suspends and resumes the loop over the control channel (cmd:pause / cmd:start windows with ignored lines in between, at moments the OS picks): byte-identical results. Programs also print their own argv words (MES write of the pointer found at run time), write values into unrelated on-chip I/O registers, end with a burst of 3-255 port messages (1 in 4), and 1 in 4 starts at the last sync multiple below 2^32 (state count, stamps and sync totals cross 2^32). A third of the programs get a tail solved so that the total lands exactly on / just before / just after a threshold. Phase 3: 32 (quick) / 600 (thorough) programs through the repository's real release binary (-m): exit status 0 iff no failing instruction, stdout byte stream == console text + `msg: ` lines of the in-process run (covers src/main.rs incl. the argument string). Non-trivial = total crosses >= 1 sync threshold, or emits an ioport/stdout message, or contains a failing instruction; distinct by ELF contents.";
     finish(ctx, P, stats, rule, vec!["'independent of host speed' is sampled under CPU contention, not proved; no wall-clock value is ever asserted".into(), "absolute per-instruction charges are C20's subject: C13 only relates run()'s totals to the charges the steps return".into()], Map::new())
 }
